@@ -62,6 +62,11 @@ extern "C" void sim_log_handler(const char *msg, void *data) {
 	w->log_total++;
 	if (!msg) { w->log_null++; return; }
 	if (w->log.size() < 200) w->log.push_back(std::string(msg).substr(0, 300));
+	{   // "delivered as a complete message": a single character, or nothing but punctuation, is a piece of a message
+		size_t n = strlen(msg); while (n && (msg[n - 1] == '\n' || msg[n - 1] == '\r')) n--;
+		bool punct = n > 0 && n <= 3; for (size_t k = 0; k < n && punct; k++) if (!strchr("\":;,.' \t", msg[k])) punct = false;
+		if (n == 1 || punct) { if (!w->log_fragments) w->log_fragment_first = std::string(msg, n); w->log_fragments++; }
+	}
 	for (int i = 0; MARKS[i]; i++) if (strstr(msg, MARKS[i])) w->log_marks[MARKS[i]]++;
 }
 extern "C" int sim_reporter(void *dest, const char *s) {
